@@ -594,6 +594,44 @@ func multicastRounds(t *testing.T, rounds int) (*C18Case, error) {
 		return nil, syscall.EAGAIN
 	}
 	for r := 0; r < rounds; r++ {
+		// the client that listens to the group also sends: its request goes to the kernel and to nobody else (the
+		// reference listener in the same group must not see a copy of it), and the kernel's refusal echoes it
+		{
+			body := bytes.Repeat([]byte{byte(0xA0 + r%16)}, 1+r*7%90)
+			typ := uint16(1000 + r%500)
+			c := C18Case{Kind: "multicast-client-sends", Type: typ, Payload: body}
+			hC18.Eval()
+			seq, err := cl.Send(syscall.NetlinkMessage{Header: syscall.NlMsghdr{Type: typ, Flags: syscall.NLM_F_REQUEST}, Data: body})
+			if err != nil {
+				return &c, fmt.Errorf("Send on a client that is member of multicast group %#x: %v", rtmgrpIPv4IfAddr, err)
+			}
+			buf := make([]byte, 16384)
+			for {
+				n, from, err := syscall.Recvfrom(ref, buf, syscall.MSG_DONTWAIT)
+				if err != nil {
+					break
+				}
+				if a, ok := from.(*syscall.SockaddrNetlink); ok && a.Pid != 0 {
+					return &c, fmt.Errorf("another socket in multicast group %#x received a datagram from port %d (% x) when the client sent its request (sequence %d): Send puts one message on the wire, for the kernel", rtmgrpIPv4IfAddr, a.Pid, buf[:min(n, 64)], seq)
+				}
+			}
+			var got []syscall.NetlinkMessage
+			for try := 0; try < 2000; try++ {
+				got, err = cl.Receive(true, syscall.ParseNetlinkMessage)
+				if err == syscall.EAGAIN || err == syscall.EINTR {
+					time.Sleep(100 * time.Microsecond)
+					continue
+				}
+				break
+			}
+			if err != nil || len(got) != 1 || got[0].Header.Type != syscall.NLMSG_ERROR || len(got[0].Data) < 20 {
+				return &c, fmt.Errorf("the kernel's refusal of request type %d did not come back: %v %+v", typ, err, got)
+			}
+			if e := int32(ne.Uint32(got[0].Data)); e != -int32(syscall.EOPNOTSUPP) || ne.Uint16(got[0].Data[8:]) != typ || ne.Uint32(got[0].Data[12:]) != seq {
+				return &c, fmt.Errorf("the kernel answered request type %d sequence %d with errno %d, echoed header % x", typ, seq, e, got[0].Data[4:20])
+			}
+			hC18.Class("multicast-member-sends-to-the-kernel-only")
+		}
 		addr := []byte{10, byte(r >> 8), byte(r), byte(1 + r%250)}
 		prefix := byte(8 + r%25)
 		payload := []byte{syscall.AF_INET, prefix, 0, 0, 1, 0, 0, 0} // ifaddrmsg: family, prefixlen, flags, scope, index of lo
